@@ -222,7 +222,9 @@ class WebSocketApp:
             return
         while not self.stop_ping.wait(self.ping_interval) and self.keep_running is True:
             if self.sock:
-                self.last_ping_tm = time.time()
+                if self.last_pong_tm >= self.last_ping_tm:
+                    # keep the time of the oldest unanswered ping
+                    self.last_ping_tm = time.time()
                 try:
                     _logging.debug("Sending ping")
                     self.sock.ping(self.ping_payload)
